@@ -28,9 +28,21 @@ TABLE = {
                 text="For every poset in bounds every presentation: the lattice the real compiler reconstructs (covariant sets, direct bases), slot disjointness, dispatch and next all equal the model's.", ref="3/C08"),
     "C17": dict(engine="E1 regx", technique="bounded-exhaustive exploration of registries x all abstract-flag assignments: update report vs exhaustive tuple enumeration by the reference model",
                 text="Every registry in bounds x every subset of abstract classes: per-method and total report flags (gaps, ambiguities, concrete variants) iff the model finds such a tuple; cell count equals tables built and installed.", ref="3/C17"),
+    "C05": dict(engine="E3 hashx", technique="exhaustive enumeration of a finite alphabet of id sets x publish histories (all sequences up to depth 3/4) x search budgets, on the real hash_initialize / publish_vptrs / hash_type_id",
+                text="Every id set of the alphabet (7 bases x ~20 strides x 12-15 sizes, high-bit-only, bit-reversed, clustered, two ids per class, seeded xorshift), every sequence of 2..3(4) publishes over a 12-set sub-alphabet on one policy state, every budget in {1..8,16,64} followed by the default budget: after each call either a hash_search_error was reported or the installed hash is perfect, in range, holds the right v-table pointers, and the checked variant reports every probed unregistered id as unknown.", ref="3/C05",
+                note="Trusted base: compiler, harness e3/hashx.cpp. Hook H1 (guarded by JLL63_YOMM2_VERIF) makes the attempt budget adjustable; invalid_type is excluded from the domain as documented."),
+    "C18": dict(engine="E6 listx", technique="explicit-state BFS over all reachable static_list states applying every operation in every state, plus all operation sequences up to a length, on the real static_list and on real registration objects, vs a std::vector model",
+                text="The state space of the intrusive list over a pool of 5 (quick) / 6 (thorough) nodes is finite and fully explored (every op from every state), every sequence of <= 8 / 10 operations is also run end-to-end; the same through class_declaration / method / definition_info constructors and destructors; after each operation iteration, size, empty and all link fields equal the model.", ref="3/C18",
+                note="Trusted base: compiler, harness e6/listx.cpp. Objects are placement-constructed in zero-filled static buffers, as registration objects are."),
+    "C19": dict(engine="E7 fwdx", technique="exhaustive enumeration of name sets and of type-description derivations through the real generator, output parsed by an independent recursive-descent parser; sample compiled by g++",
+                text="Every declarable set of <= 3 (4) qualified names over prefix-colliding identifiers and depth <= 2 (3), and every derivation to depth 3 (4) of a demangle-style type grammar: output is balanced, declares each requested class exactly once in its namespace and nothing else; fundamental types, cv-qualifiers, template names, std:: and yorel:: are skipped.", ref="3/C19",
+                note="Trusted base: compiler, harness e7/fwdx.cpp and its 40-line parser. Names outside the grammar (anonymous namespaces, classes nested in templates) are not covered."),
 }
 
 ENGINES = [
+    {"name": "E3 hashx", "path": "e3/", "serves_properties": ["C05"], "kind_free_text": "enumerator of id sets / publish histories / budgets over the real perfect-hash facets"},
+    {"name": "E6 listx", "path": "e6/", "serves_properties": ["C18"], "kind_free_text": "explicit-state BFS over static_list and registration-object lifetimes"},
+    {"name": "E7 fwdx", "path": "e7/", "serves_properties": ["C19"], "kind_free_text": "exhaustive name-set / type-grammar enumeration through the real generator"},
     {"name": "E1 regx", "path": "e1/", "serves_properties": ["C01", "C02", "C03", "C04", "C06", "C08", "C10", "C12", "C13", "C15", "C17"],
      "kind_free_text": "explicit-state bounded-exhaustive explorer of registries over the real yomm2 compiler and call path (C++), sharded, crash-contained, replayable"},
 ]
@@ -74,7 +86,7 @@ def main():
         "guard": "JLL63_YOMM2_VERIF",
         "enable": "harness translation units are compiled with -DJLL63_YOMM2_VERIF against /repo/include (header-only library); the repository's own build never defines it",
         "baseline_off_cmd": "cmake -G Ninja -S /repo -B /repo/_build -DCMAKE_BUILD_TYPE=RelWithDebInfo -DCMAKE_CXX_FLAGS=-Wno-error -DYOMM2_ENABLE_TESTS=ON && cmake --build /repo/_build -j16 && ctest --test-dir /repo/_build -j8 --timeout 900",
-        "source_commits": extra.get("hook_commits", []),
+        "source_commits": ["897d902"] + extra.get("hook_commits", []),
         "add_only": True,
     }
     man = {
